@@ -18,7 +18,7 @@ LAYOUT_RE = {"ws": re.compile(r"\s+\Z"), "comments": re.compile(r"(?:\s+|//[^\n]
 
 def layout_kind_of(c):
     k = c.gram.layout if c.gram is not None else None
-    if k is None and "Layout:" in c.text:
+    if k is None and "layout:" in c.text.lower():
         k = "user"
     return k
 
@@ -51,6 +51,9 @@ def oracle(c):
     shapes = {}
     for k, ((algo, partial, inp, meta), res) in enumerate(zip(c.inputs, c.results)):
         toks = tuple(meta.get("toks", ())) if meta else ()
+        if c.gram is not None and layout_kind in (None, "ws", "comments", "nested") and \
+                not oracles.tokenizable(layout_kind, inp, set(c.gram.terms.values())):
+            toks = ("<not tokenizable>", k)      # malformed layout / foreign character: not a layout INSERTION of anything
         if lf.klass(res) != "ok":
             shapes.setdefault(toks, []).append((k, None))
             continue
@@ -171,7 +174,7 @@ def collide_cases(rng, tier):
 def extra_requests(c):
     reqs = ["cert noshiftstop", "cert structural 0 0"]
     c.lc_idx = []
-    if c.dump is not None and "Layout:" in c.text:
+    if c.dump is not None and "layout:" in c.text.lower():
         for k, ((algo, partial, inp, _m), mat) in enumerate(zip(c.inputs, c.matrices)):
             if c.results[k].startswith("skipped") or c.results[k] == "notable":
                 continue
